@@ -24,7 +24,7 @@ Section HkdfFacts.
   Lemma hkdf_blocks_length prk info : forall n prev i,
     length (hkdf_blocks H B prk info prev i n) = (n * HashLen)%nat.
   Proof.
-    induction n as [|n IH]; intros prev i; cbn [hkdf_blocks]; [reflexivity|].
+    clear HashLen_pos. induction n as [|n IH]; intros prev i; cbn [hkdf_blocks]; [reflexivity|].
     rewrite app_length, hmac_length, IH. lia.
   Qed.
 
@@ -72,7 +72,10 @@ Section HkdfFacts.
 
   Theorem hkdf_expand_too_long prk info L : (255 * HashLen < L)%nat ->
     hkdf_expand H B HashLen prk info L = None.
-  Proof. intros HL. unfold hkdf_expand. destruct (Nat.ltb_spec (255 * HashLen) L); [reflexivity|lia]. Qed.
+  Proof.
+    clear H_len HashLen_pos.
+    intros HL. unfold hkdf_expand. destruct (Nat.ltb_spec (255 * HashLen) L); [reflexivity|lia].
+  Qed.
 
   Theorem hkdf_expand_length prk info L o :
     hkdf_expand H B HashLen prk info L = Some o -> length o = L /\ (L <= 255 * HashLen)%nat.
